@@ -74,17 +74,5 @@ Definition P8 (cp : N) : bool :=
 Definition P16 (cp : N) : bool :=
   implb (scalarb cp) (let s := std_utf16 cp in eqb_list (to_utf16 cp) s && opt_is (dec_utf16 s) cp).
 
-(* one step of the hexadecimal loop: number n < 4096, digit value d < 16 written in
-   either letter case; v packs (n, d, case) as n * 32 + d * 2 + case *)
-Definition Phex (v : N) : bool :=
-  let n := N.shiftr v 5 in
-  let d := N.land (N.shiftr v 1) 15 in
-  let up := N.testbit v 0 in
-  match hex_step n (hex_char up d) with Some r => r =? n * 16 + d | None => false end.
-
 (* the surrogate test singles out exactly D800..DBFF among 16-bit values *)
 Definition Psur (x : N) : bool := Bool.eqb (is_high_surrogate x) ((0xD800 <=? x) && (x <? 0xDC00)).
-
-(* recombination of a pair: index = hi * 1024 + lo *)
-Definition Prec (v : N) : bool :=
-  recombine (0xD800 + N.shiftr v 10) (0xDC00 + N.land v 1023) =? 0x10000 + v.
